@@ -32,11 +32,16 @@ def extractNamePart (name : Bytes) (pfx : Bytes) (isGomaxprocs : Bool) : Bytes :
     | some p => p.drop pfx.length
     | none => []
 
-def gomaxprocsKey : Bytes := Bytes.ofString "/gomaxprocs"
-def dotName : Bytes := Bytes.ofString ".name"
-def dotFullname : Bytes := Bytes.ofString ".fullname"
-def dotConfig : Bytes := Bytes.ofString ".config"
-def dotUnit : Bytes := Bytes.ofString ".unit"
+/-- "/gomaxprocs" -/
+def gomaxprocsKey : Bytes := [47, 103, 111, 109, 97, 120, 112, 114, 111, 99, 115]
+/-- ".name" -/
+def dotName : Bytes := [46, 110, 97, 109, 101]
+/-- ".fullname" -/
+def dotFullname : Bytes := [46, 102, 117, 108, 108, 110, 97, 109, 101]
+/-- ".config" -/
+def dotConfig : Bytes := [46, 99, 111, 110, 102, 105, 103]
+/-- ".unit" -/
+def dotUnit : Bytes := [46, 117, 110, 105, 116]
 
 inductive ExtractErr | emptyKey | notExtractor
   deriving Repr, DecidableEq
